@@ -26,7 +26,9 @@ import (
 	"fmt"
 	"math/big"
 	"os"
+	"runtime"
 	"runtime/debug"
+	"runtime/pprof"
 	"sort"
 	"strings"
 	"sync"
@@ -631,15 +633,82 @@ func evaluate(seq []op) *fail {
 	}
 	withLogs := what != "erase-reopen"
 	if field, msg := out.end.diff(tout.end, withLogs); field != "" {
+		if field == "exist" && what == "erase-revert" && emptyDeletedInSequence(seq, twin) {
+			field = "exist:empty-account-deleted"
+		}
 		return &fail{what + "/dump", field, fmt.Sprintf("%s (sequence vs twin %s)", msg, seqString(twin))}
 	}
 	if field, msg := out.closing.diff(tout.closing, withLogs); field != "" {
+		// name the one pattern that has a known cause precisely: an account that was empty (and equal in
+		// both runs) before the closing Finalise(true) is deleted by it in one run only - its hidden
+		// dirty mark differs
+		if field == "exist" {
+			for i := range out.end.Accts {
+				if out.closing.Accts[i].Exist != tout.closing.Accts[i].Exist && out.end.Accts[i].Exist && out.end.Accts[i].Empty {
+					field = "exist:empty-account-deleted"
+				}
+			}
+		}
 		return &fail{what + "/after-finalise", field, fmt.Sprintf("%s after closing IntermediateRoot(true) (sequence vs twin %s)", msg, seqString(twin))}
 	}
 	if out.closRoot != tout.closRoot {
 		return &fail{what + "/after-finalise", "root", fmt.Sprintf("closing root %x vs twin %x (%s)", out.closRoot, tout.closRoot, seqString(twin))}
 	}
 	return nil
+}
+
+// emptyDeletedInSequence diagnoses one known pattern for the signature (it never excuses anything):
+// sequence and twin read back identically right before an empty-account-deleting finalise/commit inside
+// the sequence, some account is empty there, and right after it exists in one of them only.
+func emptyDeletedInSequence(seq, twin []op) bool {
+	shift := len(seq) - len(twin)
+	for q := shift; q < len(seq); q++ {
+		o := seq[q]
+		if !(o.kind == kFin || o.kind == kCommit || o.kind == kReopen) || !strings.Contains(o.name, "(true)") {
+			continue
+		}
+		if q-shift < 0 || twin[q-shift].name != o.name && twin[q-shift].kind != kCommit {
+			continue
+		}
+		b1, f1 := execute(seq[:q])
+		b2, f2 := execute(twin[:q-shift])
+		a1, g1 := execute(seq[:q+1])
+		a2, g2 := execute(twin[:q+1-shift])
+		if f1 != nil || f2 != nil || g1 != nil || g2 != nil {
+			return false
+		}
+		if fld, _ := b1.end.diff(b2.end, true); fld != "" {
+			return false
+		}
+		for i := range b1.end.Accts {
+			if b1.end.Accts[i].Exist && b1.end.Accts[i].Empty && a1.end.Accts[i].Exist != a2.end.Accts[i].Exist {
+				return true
+			}
+		}
+		return false
+	}
+	return false
+}
+
+// shrink removes operations one at a time as long as the sequence stays well formed and still fails
+// some oracle: the (locally minimal) result identifies a defect rather than an enumeration index, and
+// the violation is reported for it.
+func shrink(seq []op, f *fail) []op {
+	cur := append([]op{}, seq...)
+	for changed := true; changed; {
+		changed = false
+		for i := 0; i < len(cur); i++ {
+			cand := append(append([]op{}, cur[:i]...), cur[i+1:]...)
+			if !wellFormed(cand) {
+				continue
+			}
+			if g := evaluate(cand); g != nil {
+				cur, changed = cand, true
+				break
+			}
+		}
+	}
+	return cur
 }
 
 func seqString(seq []op) string {
@@ -667,7 +736,9 @@ func parseSeqString(s string) []op {
 func TestCheck(t *testing.T) {
 	log.Root().SetHandler(log.DiscardHandler())
 	debug.SetGCPercent(800)
+	runtime.MemProfileRate = 0
 	run := ev.Start("exploration")
+	run.MaxReplays = 120 // one defect here shows as several (family, target, shape) signatures
 	run.Rule = "every well-formed operation sequence up to the depth bound over the alphabet of each (family, target account), from a base state " +
 		"holding a contract account, an existing empty account and an absent one; distinct classes = (family, target, multiset of operation kinds, erased construct)"
 	run.Assume("three accounts (contract with storage, existing-but-empty, absent), two storage slots, values 0..2, balances 0..~8, codes {none, A, B}")
@@ -695,6 +766,11 @@ func TestCheck(t *testing.T) {
 	if v := os.Getenv("VERIF_C09_DEPTH"); v != "" { // development aid
 		fmt.Sscan(v, &depth)
 	}
+	if pf := os.Getenv("VERIF_C09_PROF"); pf != "" { // development aid
+		if fh, err := os.Create(pf); err == nil {
+			pprof.StartCPUProfile(fh)
+		}
+	}
 	deadline := run.Deadline(80*time.Second, 13*time.Minute)
 	only := os.Getenv("VERIF_C09_FAMILIES")
 	var total, skipped, twins int64
@@ -707,7 +783,12 @@ func TestCheck(t *testing.T) {
 			alpha := fam.alphabet(target)
 			t0 := time.Now()
 			var famEvals int64
-			for l := 0; l <= depth; l++ {
+			fdepth := depth
+			if run.Quick() && strings.HasPrefix(fam.name, "F2") && os.Getenv("VERIF_C09_DEPTH") == "" {
+				fdepth = depth - 1 // quick: the two families without snapshots (no ill-formed sequences to skip) one level shallower
+			}
+			run.Set("depth_"+fam.name, fdepth)
+			for l := 0; l <= fdepth; l++ {
 				n := 1
 				for i := 0; i < l; i++ {
 					n *= len(alpha)
@@ -769,6 +850,7 @@ func TestCheck(t *testing.T) {
 		}
 		run.Set("alphabet_"+fam.name, strings.Join(fam.names, " "))
 	}
+	pprof.StopCPUProfile()
 	run.Set("depth", depth)
 	run.Add("sequences", total)
 	run.Add("sequences_with_twin", twins)
@@ -786,13 +868,44 @@ func classKey(seq []op, what string) string {
 	return fmt.Sprintf("%v/%s", c, what)
 }
 
+// shape abstracts a (shrunk) sequence to its operation kinds: mutators become "mut", everything else
+// keeps its name. One defect then has a handful of signatures whatever mutator exposes it.
+func shape(seq []op) string {
+	var s []string
+	for _, o := range seq {
+		if o.kind == kMut {
+			s = append(s, "mut")
+		} else {
+			s = append(s, o.name)
+		}
+	}
+	return strings.Join(s, " ")
+}
+
+var (
+	preSeen   sync.Map // family/target/oracle/field/shape of the unshrunk sequence: shrink one of each only
+	processed sync.Map // family/target -> *atomic.Int64
+)
+
 func report(run *ev.Run, fam *family, target int, seq []op, f *fail) {
+	pre := fmt.Sprintf("%s/%d/%s/%s/%s", fam.name, target, f.oracle, f.field, shape(seq))
+	if _, dup := preSeen.LoadOrStore(pre, true); dup {
+		return
+	}
+	cnt, _ := processed.LoadOrStore(fmt.Sprintf("%s/%d", fam.name, target), new(atomic.Int64))
+	if cnt.(*atomic.Int64).Add(1) > 600 {
+		return // hundreds of differently shaped failing sequences: the run fails anyway
+	}
 	for i := 0; i < 3; i++ {
 		g := evaluate(seq)
 		if g == nil || g.oracle != f.oracle || g.field != f.field {
 			ev.Broken("verdict of %q flipped on re-evaluation: first %v then %v", seqString(seq), f, g)
 		}
 	}
-	run.Violate(ev.Violation{Scenario: fam.name, Oracle: f.oracle, CaseID: "target=" + addrNames[target] + "/" + f.field,
-		Detail: map[string]interface{}{"family": fam.name, "target": addrNames[target], "seq": seqString(seq), "message": f.msg}})
+	min := shrink(seq, f)
+	if g := evaluate(min); g != nil {
+		f = g
+	}
+	run.Violate(ev.Violation{Scenario: fam.name, Oracle: f.oracle + ":" + f.field, CaseID: "target=" + addrNames[target] + "/shape=" + shape(min),
+		Detail: map[string]interface{}{"family": fam.name, "target": addrNames[target], "seq": seqString(min), "found_as": seqString(seq), "message": f.msg}})
 }
